@@ -24,12 +24,14 @@ use sylvia::{{contract, entry_points, interface}};
 pub struct Resp {{}}
 """
 
-REPRESENTATIVES = ["foo2_bar", "step_2", "a_b_c", "v1", "x1y", "ab_cd_e", "a1_b2", "foo_bar2", "a", "_lead", "trail_", "a__b", "__x__y", "get_v2_info", "s3_key_7"]
+REPRESENTATIVES = ["foo2_bar", "step_2", "a_b_c", "v1", "x1y", "ab_cd_e", "a1_b2", "foo_bar2", "a", "_lead", "trail_", "a__b", "__x__y", "get_v2_info", "s3_key_7",
+                   # non-ASCII identifiers (legal Rust): serde's rename rule lower-cases ASCII only, so the upper-case first letter of a word survives
+                   "überweisen", "konto_ändern", "zurück_setzen"]
 
 
 def upper_camel_guess(n):
     # only used to keep names with identical variant / constructor identifiers apart; being wrong costs a compile error, not soundness
-    parts = re.split(r"_+|(?<=[a-z])(?=[0-9])|(?<=[0-9])(?=[a-z])", n)
+    parts = re.split(r"_+|(?<=[^\W\d_])(?=[0-9])|(?<=[0-9])(?=[^\W\d_])", n)
     return "".join(p[:1].upper() + p[1:] for p in parts if p)
 
 
